@@ -1,0 +1,83 @@
+//go:build verif
+
+// Contracts for the verifier in /verif (comment-only file; compiled only with -tags verif).
+// Functions that had no contract yet: the fake pre_shared_key decoder, the uTLS connection-state
+// helper, the remaining sessionController methods, the exported ticket wrappers, the TLS 1.2 client
+// handshake driver (thin contract) and ShuffleChromeTLSExtensions.
+
+package tls
+
+// ---------------------------------------------------------------------------------------------
+// (*FakePreSharedKeyExtension).Write (u_pre_shared_key.go): body of a pre_shared_key extension,
+//   identities<0..2^16-1> of { identity<0..2^16-1>, obfuscated_ticket_age(4) }
+//   binders<0..2^16-1>    of opaque<0..255>
+// Both lists may be empty, empty labels/binders are taken, bytes after the binders block are
+// tolerated.  The decoded entries are APPENDED to e.Identities / e.Binders (the existing prefix is
+// kept, also on the error paths: entries decoded before the error stay appended, unlike the other
+// decoders which leave their fields alone on error).  Label and binders ALIAS the input (no copy).
+//
+// gpId(j) / gpBd(j) are the offsets in b of identity entry j / binder entry j (walk functions, as
+// alpnPos in verif_contracts_write.go): the clauses tagged walk_* hold for EVERY pair of functions that
+// satisfies the recurrences gpIdWalk / gpBdWalk.
+//
+// uint16 arithmetic: the remaining-length counter of the identities block is decremented by 2 before
+// and by 4 after the bounds check of the label, both without a check, so it WRAPS when the declared
+// block length ends inside an entry.  What the code does (id_mod): it stops at the first entry boundary
+// whose offset is congruent to 2 + IL modulo 65536.  For len(b) <= 65535 (every extension body that
+// can come from a wire ClientHello) this is the declared end (id_exact); for longer inputs it is not
+// (DEFECT_id_block_end, last clause).  The binders counter cannot wrap (bd_exact for every input).
+//@ uf gpId(Int) Int
+//@ uf gpBd(Int) Int
+//@ spec gpIdWalk(b) = gpId(0) == 2 && forall j in 0..len(b): gpId(j+1) == gpId(j) + 6 + (b[gpId(j)]*256 + b[gpId(j)+1])
+//@ spec gpBdWalk(b, st) = gpBd(0) == st && forall j in 0..len(b): gpBd(j+1) == gpBd(j) + 1 + b[gpBd(j)]
+//@ spec gpIdLen(b, p) = b[p]*256 + b[p+1]
+//@ spec gpBe32(b, p) = b[p]*16777216 + b[p+1]*65536 + b[p+2]*256 + b[p+3]
+
+//@ func (*FakePreSharedKeyExtension).Write
+//@   property C07 C08 C06
+//@   let ni0 = len(e.Identities)
+//@   let nb0 = len(e.Binders)
+//@   let IL = b[0]*256 + b[1]
+//@   let ids0 = e.Identities
+//@   let bds0 = e.Binders
+//@   requires e != nil
+//@   requires nospare: cap(e.Identities) == len(e.Identities)
+//@   note nospare: only needed for the frame. With spare capacity append() writes the new PskIdentity into the old backing array beyond len, and the generator cannot name such a region of a slice of STRUCTS in a modifies clause (calls.go: "modifies region over slice of structs"); for [][]byte it can (e.Binders[nb0..cap]). All bounds/nil/panic obligations (C07) were also discharged without this precondition (run of 2026-09-22: only the 5 frame-keep obligations of the PskIdentity field heaps failed). The importers call Write on a freshly built &FakePreSharedKeyExtension{} (nil lists).
+//@   modifies e.Identities, e.Binders, e.Binders[nb0..cap(e.Binders)]
+//@   ensures res: (ret0 == len(b) && ret1 == nil) || (ret0 == 0 && ret1 != nil)
+//@   ensures input: unchanged(b)
+//@   ensures grow: len(e.Identities) >= ni0 && len(e.Binders) >= nb0
+//@   ensures short: len(b) < 2 ==> ret1 != nil && e.Identities == old(e.Identities) && e.Binders == old(e.Binders)
+//@   ensures keep_ids: forall j in 0..ni0: e.Identities[j].Label == old(e.Identities[j].Label) && e.Identities[j].ObfuscatedTicketAge == old(e.Identities[j].ObfuscatedTicketAge)
+//@   ensures keep_bds: forall j in 0..nb0: e.Binders[j] == old(e.Binders[j])
+//@   ensures count: 6 * (len(e.Identities) - ni0) + (len(e.Binders) - nb0) + 4 <= len(b) || ret1 != nil
+//@   ensures walk_ids: gpIdWalk(b) ==> forall j in 0..len(e.Identities)-ni0: e.Identities[ni0+j].Label == b[gpId(j)+2:gpId(j)+2+gpIdLen(b, gpId(j))] && e.Identities[ni0+j].ObfuscatedTicketAge == gpBe32(b, gpId(j)+2+gpIdLen(b, gpId(j)))
+//@   ensures id_mod: gpIdWalk(b) && ret1 == nil ==> (gpId(len(e.Identities)-ni0) - 2 - IL) % 65536 == 0 && gpId(len(e.Identities)-ni0) + 2 <= len(b)
+//@   ensures id_exact: gpIdWalk(b) && ret1 == nil && len(b) <= 65535 ==> gpId(len(e.Identities)-ni0) == 2 + IL
+//@   ensures walk_bds: gpIdWalk(b) && gpBdWalk(b, gpId(len(e.Identities)-ni0) + 2) ==> forall j in 0..len(e.Binders)-nb0: e.Binders[nb0+j] == b[gpBd(j)+1:gpBd(j)+1+b[gpBd(j)]]
+//@   ensures bd_exact: gpIdWalk(b) && gpBdWalk(b, gpId(len(e.Identities)-ni0) + 2) && ret1 == nil ==> gpBd(len(e.Binders)-nb0) == gpBd(0) + gpIdLen(b, gpBd(0) - 2) && gpBd(len(e.Binders)-nb0) <= len(b)
+//@   ensures DEFECT_id_block_end: gpIdWalk(b) && ret1 == nil ==> gpId(len(e.Identities)-ni0) == 2 + IL
+//@   loop 0 invariant len(b) >= 2
+//@   loop 0 invariant arr(s) == arr(b) && off(s) >= off(b) + 2 && off(s) + len(s) == off(b) + len(b) && off(s) + cap(s) == off(b) + cap(b)
+//@   loop 0 invariant len(e.Identities) >= ni0 && e.Binders == bds0
+//@   loop 0 invariant fresh(e.Identities) || e.Identities == ids0
+//@   loop 0 invariant forall j in 0..ni0: e.Identities[j].Label == old(e.Identities[j].Label) && e.Identities[j].ObfuscatedTicketAge == old(e.Identities[j].ObfuscatedTicketAge)
+//@   loop 0 invariant 6 * (len(e.Identities) - ni0) <= off(s) - off(b) - 2
+//@   loop 0 invariant (identitiesLength - (IL - (off(s) - off(b) - 2))) % 65536 == 0
+//@   loop 0 invariant gpIdWalk(b) ==> off(s) == off(b) + gpId(len(e.Identities) - ni0)
+//@   loop 0 invariant gpIdWalk(b) ==> forall j in 0..len(e.Identities)-ni0: e.Identities[ni0+j].Label == b[gpId(j)+2:gpId(j)+2+gpIdLen(b, gpId(j))]
+//@   loop 0 invariant gpIdWalk(b) ==> forall j in 0..len(e.Identities)-ni0: e.Identities[ni0+j].ObfuscatedTicketAge == gpBe32(b, gpId(j)+2+gpIdLen(b, gpId(j)))
+//@   at after call ReadUint32#0: assert age: gpIdWalk(b) && res ==> obfuscatedTicketAge == gpBe32(b, gpId(len(e.Identities)-ni0)+2+gpIdLen(b, gpId(len(e.Identities)-ni0)))
+//@   loop 1 invariant len(b) >= 4
+//@   note loop 1: the offset (relative to b) at which the binder entries start is written len(b) - atloop(1, len(s)), never atloop(1, off(s)): a clause that names the same expression inside and outside atloop() got both evaluated in one state
+//@   loop 1 invariant arr(s) == arr(b) && off(s) + len(s) == off(b) + len(b) && off(s) + cap(s) == off(b) + cap(b)
+//@   loop 1 invariant off(s) - off(b) >= len(b) - atloop(1, len(s))
+//@   loop 1 invariant len(b) - atloop(1, len(s)) >= 4 + 6 * (len(e.Identities) - ni0)
+//@   loop 1 invariant len(e.Binders) >= nb0 && len(e.Binders) - nb0 <= off(s) - off(b) - (len(b) - atloop(1, len(s)))
+//@   loop 1 invariant fresh(e.Binders) || (arr(e.Binders) == arr(bds0) && off(e.Binders) == off(bds0) && cap(e.Binders) == cap(bds0))
+//@   loop 1 invariant forall j in 0..nb0: e.Binders[j] == old(e.Binders[j])
+//@   loop 1 invariant gpIdWalk(b) ==> len(b) - atloop(1, len(s)) == gpId(len(e.Identities) - ni0) + 2
+//@   loop 1 invariant gpIdWalk(b) ==> (gpId(len(e.Identities)-ni0) - 2 - IL) % 65536 == 0
+//@   loop 1 invariant bindersLength + (off(s) - off(b) - (len(b) - atloop(1, len(s)))) == gpIdLen(b, len(b) - atloop(1, len(s)) - 2)
+//@   loop 1 invariant gpIdWalk(b) && gpBdWalk(b, gpId(len(e.Identities)-ni0) + 2) ==> off(s) == off(b) + gpBd(len(e.Binders) - nb0)
+//@   loop 1 invariant gpIdWalk(b) && gpBdWalk(b, gpId(len(e.Identities)-ni0) + 2) ==> forall j in 0..len(e.Binders)-nb0: e.Binders[nb0+j] == b[gpBd(j)+1:gpBd(j)+1+b[gpBd(j)]]
